@@ -264,6 +264,8 @@ def run(ctx):
     ctx.obligation("Gen/Opcodes.v regenerated from back/bytecode.h; vm_execute_op[] pairing",
                    not g["problems"], g["problems"])
     tools = vmcheck.VmTools("asan")
+    import atexit
+    atexit.register(tools.close)          # the scratch directory goes away even if the check crashes
     lib = tools.lib
     # private copy of the extracted runner: other checks running at the same time may relink
     # build/ocaml/verifier/run under our feet
